@@ -268,7 +268,7 @@ def write_evidence(pid, tier, seed, results, violations, inconclusive, wall, not
                 q[k] += int(st.get(k, 0))
             solver_s += float(st.get("solver_s", 0))
             rules.append("engine S: a case = (operator table, program text, pipeline through the real API at T = Sym); the solver decides impl term = reference term for all variable and literal values, "
-                         "batched as one disjunctive query per <=64 programs; distinct_nontrivial counts distinct (table, text) pairs containing at least one operator application (a lower bound once a worker has seen 2 million of them)")
+                         "batched as one disjunctive query per <=64 programs (calculus checks: one query per path and verification condition, plus the feasibility queries of the decision oracle, where sat means that a branch is feasible); distinct_nontrivial counts distinct (table, text) pairs containing at least one operator application (a lower bound once a worker has seen 2 million of them)")
             meta = r.get("meta", {})
             functions += meta.get("functions", [])
             assumptions += meta.get("assumptions", [])
